@@ -72,14 +72,13 @@ func ConnectedComponents(g graph.Undirected) [][]graph.Node {
 // considered topologically equal, a and b must have identical sets
 // of nodes and be identically traversable.
 func Equal(a, b graph.Graph) bool {
-	aNodes := a.Nodes()
-	bNodes := b.Nodes()
-	if aNodes.Len() != bNodes.Len() {
+	// The lengths of the collected slices are compared since
+	// an iterator may report an indeterminate, negative, length.
+	aNodeSlice := graph.NodesOf(a.Nodes())
+	bNodeSlice := graph.NodesOf(b.Nodes())
+	if len(aNodeSlice) != len(bNodeSlice) {
 		return false
 	}
-
-	aNodeSlice := graph.NodesOf(aNodes)
-	bNodeSlice := graph.NodesOf(bNodes)
 	order.ByID(aNodeSlice)
 	order.ByID(bNodeSlice)
 	for i, aU := range aNodeSlice {
@@ -88,14 +87,11 @@ func Equal(a, b graph.Graph) bool {
 			return false
 		}
 
-		toA := a.From(id)
-		toB := b.From(id)
-		if toA.Len() != toB.Len() {
+		aAdjacent := graph.NodesOf(a.From(id))
+		bAdjacent := graph.NodesOf(b.From(id))
+		if len(aAdjacent) != len(bAdjacent) {
 			return false
 		}
-
-		aAdjacent := graph.NodesOf(toA)
-		bAdjacent := graph.NodesOf(toB)
 		order.ByID(aAdjacent)
 		order.ByID(bAdjacent)
 		for i, aV := range aAdjacent {
